@@ -290,62 +290,42 @@ def run(rep, tier):
                        "(zero-length entries carry line deltas larger than 127): %s" % "; ".join(bad_paths[:2]))
     # ---------------------------------------------------------------- R5 co_lines based finders
     def colines_finder(fn, label, none_yielded):
-        obj = Sym("code", "obj!")
+        """decided on scripted co_lines() output (concrete ranges; the lines are two ranged symbols A < B and None), however the finder's loop is written: the pairs it
+        yields must be those of dis.findlinestarts of the version group (3.10-3.12: a line that is not None and differs from the last reported one; 3.13: also None)"""
+        A, B = Sym("A", "int"), Sym("B", "int")
+        scripts = [[(0, 4, A), (4, 8, A), (8, 10, None), (10, 14, A), (14, 20, B), (20, 22, None), (22, 30, None), (30, 34, B), (34, 40, A)],
+                   [(0, 2, None), (2, 6, A), (6, 8, A), (8, 12, B)], [(0, 6, A)], []]
+        badc = []
+        for script in scripts:
+            obj = Sym("code", "obj!")
 
-        def hook(spec, name, fv, args, kw, node):
-            if name == "code.co_lines":
-                return Sym("co_lines()", "gen", {})
-            return NotImplemented
-        sp = Spec(F, hooks=[hook])
-        sp.assume[repr(Op("hasattr", obj, "co_lines"))] = True
-        sp.gen_elem_hook = lambda spec, gen, tag: (Sym("start", "int"), Sym("end", "int"), Sym("line"))
-        sp.run(fn, [obj], {})
-        ls = None
-        for k, e in flatten_effects(sp.effects):
-            if k == "loop-begin" and "co_lines" in show(e.args[3].cond):
-                ls = e.args[3]
-        if ls is None:
-            rep.ob("R5", fn.qualname, "%s:loop" % label, False, derived="no loop over code.co_lines()")
-            return
-        ys = [e for e in ls.effects if e.kind == "yield"]
-        lastv = [(n, hv) for n, hv in ls.head.items() if isinstance(n, str) and isinstance(hv, Sym) and hv.name.startswith(ls.tag)
-                 and any(isinstance(l, (Fall, Cont)) and l.env is not None and isinstance(l.env.get(n), (Guard, Sym)) and "line" in show(l.env.get(n)) for g, l in leaves(ls.out))]
-        ok = len(ys) == 1 and show(ys[0].args[0]) == "(start, line)"
-        rep.ob("R5", fn.qualname, "%s:pair" % label, ok, expected="(start, line)", derived=[show(y.args[0]) for y in ys])
-        if ok:
-            gl = []
-            for g in strip(ys[0].guards):
-                gl.extend(conjuncts(g))
-            gs = [show(g) for g in gl if "hasattr" not in show(g)]
-            if none_yielded:
-                good = len(gs) == 1 and gs[0].startswith("IsNot(line, ")
-            else:
-                good = len(gs) == 2 and gs[0] == "IsNot(line, None)" and gs[1].startswith("NotEq(line, ")
-            rep.ob("R5", fn.qualname, "%s:guard" % label, good,
-                   expected="line is not lastline" if none_yielded else "line is not None and line != lastline", derived=gs)
-            # the remembered line: starts as a value no first range can carry, becomes the yielded line
-            lastv = [(n__, h__) for n__, h__ in lastv if n__ in ls.pre]
-            if len(lastv) == 1:
-                n_, hv_ = lastv[0]
-                init = ls.pre.get(n_)
+            def hook(spec, name, fv, args, kw, node, script=script):
+                if name == "code.co_lines":
+                    return list(script)
+                return NotImplemented
+            sp = Spec(F, hooks=[hook])
+            sp.assume[repr(Op("hasattr", obj, "co_lines"))] = True
+            sp.ranges = {"A": (1, 1000), "B": (2000, 3000)}
+            sp.eager_generators = True
+            try:
+                got = sp.call(fn, [obj], {}, None, {})
+            except Exception as ex:
+                got = "not evaluable: %s" % ex
+            want, last = [], (False if none_yielded else None)
+            for st_, en_, ln_ in script:
                 if none_yielded:
-                    ok_init = not is_symbolic(init) and init is not None and not (isinstance(init, int) and not isinstance(init, bool))
-                    exp_init = "a sentinel that is neither None nor a line number (3.13 yields a leading no-line range as (0, None))"
-                else:
-                    ok_init = not is_symbolic(init) and not (isinstance(init, int) and not isinstance(init, bool))
-                    exp_init = "None or another non-line sentinel"
-                rep.ob("R5", fn.qualname, "%s:initial-lastline" % label, ok_init, expected=exp_init, derived=show(init),
-                       msg="the first range's line is compared with %s: a code object that begins with %s loses its first line start" % (
-                           show(init), "a no-line range" if none_yielded else "that line"))
-                upd = []
-                for g_, l_ in leaves(ls.out):
-                    if isinstance(l_, (Fall, Cont)) and l_.env is not None:
-                        upd.append(show(l_.env.get(n_)))
-                good_upd = bool(upd) and all(u == "line" or (u.startswith("(") and "? line :" in u and u.rstrip(")").endswith(show(hv_))) or u == show(hv_) for u in upd) and \
-                    any("line" in u for u in upd)
-                rep.ob("R5", fn.qualname, "%s:lastline-follows-yield" % label, good_upd, expected="lastline' = line exactly on the yielding path", derived=upd)
-            else:
-                rep.ob("R5", fn.qualname, "%s:initial-lastline" % label, False, expected="one remembered-line variable", derived=[n for n, _ in lastv])
+                    if ln_ is not last:
+                        last = ln_
+                        want.append((st_, ln_))
+                elif ln_ is not None and ln_ is not last:
+                    last = ln_
+                    want.append((st_, ln_))
+            ok_ = isinstance(got, list) and len(got) == len(want) and all(isinstance(g_, tuple) and len(g_) == 2 and g_[0] == w_[0] and g_[1] is w_[1] for g_, w_ in zip(got, want))
+            if not ok_:
+                badc.append("ranges %s: yields %s, dis yields %s" % ([(a_, b_, show(c_)) for a_, b_, c_ in script], show(got)[:120], [(a_, show(b_)) for a_, b_ in want]))
+        rep.ob("R5", fn.qualname, "%s:guard" % label, not badc, expected="line is not lastline" if none_yielded else "line is not None and line != lastline, starting from no line",
+               derived=badc[:2] or "%d scripted range lists agree" % len(scripts),
+               msg="findlinestarts over co_lines() (%s) does not report what dis reports: %s" % (label, "; ".join(badc[:1])))
     # the finders the 3.10 - 3.12 tables bind (each is examined; they are normally one and the same function)
     f31x = {}
     for v_ in ("3.10", "3.11", "3.12"):
